@@ -27,7 +27,15 @@ func init() {
 
 const c16_1Canary = `package c
 
-import "sync"
+import (
+	"bytes"
+	"sync"
+)
+
+// BadScratch: a scratch buffer of a stateful library type shared by every stream.
+var BadScratch bytes.Buffer
+
+func scratch(b []byte) []byte { BadScratch.Reset(); BadScratch.Write(b); return BadScratch.Bytes() }
 
 type sorter struct{ prev int }
 
@@ -52,6 +60,7 @@ var GoodTable = []*cfg{{name: "a"}, {name: "b"}}
 func lookup(i int) string { return GoodTable[i].name }
 
 var _ = remember
+var _ = scratch
 var _ = lookup
 var _ = BadSharedSorter.Encode
 `
@@ -274,6 +283,13 @@ func c16_1(c *core.Ctx, p *core.Prog) {
 			case strings.HasPrefix(pp, core.ArrowPath) || strings.HasPrefix(pp, "go.opentelemetry.io/") || pp == "errors" || pp == "fmt" || pp == "regexp" || pp == "time" || pp == "reflect":
 				return false // immutable API types (arrow schemas / data types / metadata), otel attribute keys, error values
 			default:
+				// any other library type: stateful when it is a struct with pointer-receiver methods
+				// (bytes.Buffer, strings.Builder, math/rand.Rand, sync.Pool-like helpers, encoders ...)
+				if _, isStruct := n.Underlying().(*types.Struct); isStruct {
+					if types.NewMethodSet(types.NewPointer(n)).Len() > types.NewMethodSet(n).Len() {
+						problems = append(problems, fmt.Sprintf("holds a %s.%s, a library type with pointer-receiver (mutating) methods: one instance shared by every stream", pp, n.Obj().Name()))
+					}
+				}
 				return false
 			}
 		})
